@@ -9,7 +9,6 @@ import (
 	"net/url"
 	"os"
 	"sort"
-	"sync"
 
 	"github.com/richiefi/rrrouter/caching"
 	"github.com/richiefi/rrrouter/server"
@@ -57,7 +56,6 @@ func metaFromSx(v sx.V) caching.StorageMetadata {
 		Status: int(v.N(4).Int()), RedirectedURL: v.N(5).Str(), Created: v.N(6).Int(), Revalidated: v.N(7).Int(), Size: v.N(8).Int()}
 }
 
-var envMu sync.Mutex
 
 func (u unitCase) Run() (out sx.V, err error) {
 	defer func() {
@@ -132,8 +130,8 @@ func (u unitCase) Run() (out sx.V, err error) {
 		}
 		return sx.L(n1, n2), nil
 	case "etag":
-		envMu.Lock()
-		defer envMu.Unlock()
+		suffixMu.Lock()
+		defer suffixMu.Unlock()
 		if len(a[0].List()) == 1 {
 			os.Setenv("ETAG_SUFFIX", a[0].N(0).Str())
 		} else {
